@@ -82,20 +82,21 @@ Definition composite_ok_root (Ls : list Q) (ws : list (list nat * f64)) (st : gs
                          (inject_Z (Z.of_nat n + 8) * (1 # (2 ^ 44)%positive) * Qmax 1 (Qabs s)))
                 (seq 0 (length Ls))
           end)
-    (* position: the root advanced to T is the weighted barycentre of the nearest images *)
+    (* position: the root advanced to T is the weighted barycentre of the point masses, taken as nearest
+       images of each other (unwrapped around the first one), modulo the box *)
     && forallb (fun d =>
-         match pos_at r T d with
-         | None => false
-         | Some rp =>
+         match pos_at r T d, pos_at (hd r kids) T d with
+         | Some rp, Some k0 =>
              let L := nth d Ls 1 in
              match fold_right (fun k acc =>
                        match acc, pos_at k T d with
-                       | Some a, Some kp => Some (a + weight_of ws (u_id k) * min_image (kp - rp) L)
+                       | Some a, Some kp => Some (a + weight_of ws (u_id k) * min_image (kp - k0) L)
                        | _, _ => None
                        end) (Some 0) kids with
-             | Some off => Qle_bool (Qabs off) (inject_Z (Z.of_nat n + 16) * (1 # (2 ^ 40)%positive) * L)
+             | Some off => circ_le (k0 + off) rp L (inject_Z (Z.of_nat n + 16) * (1 # (2 ^ 40)%positive) * L)
              | None => false
              end
+         | _, _ => false
          end) (seq 0 (length Ls))
   end.
 
